@@ -193,6 +193,9 @@ fn artefacts(ctx: &Ctx) -> (String, String) {
 		if prop == Prop::C05 {
 			c05_serials(ctx, &pool);
 		}
+		if prop == Prop::C04 && ctx.replay.as_ref().map_or(true, |r| r.workload == "accepted-characters") {
+			c04_accepted_characters(ctx);
+		}
 	}
 	if matches!(prop, Prop::C01 | Prop::C04 | Prop::C05 | Prop::C07) && wants("csr") {
 		csrs::run(ctx, prop, &pool, if prop == Prop::C07 { ctx.scale(4_000, 150_000) } else { ctx.scale(1_500, 60_000) });
@@ -514,5 +517,49 @@ fn table_dispatch(ctx: &Ctx, arg: &dyn Fn(&str) -> Option<String>) {
 			let tab = table::table(ctx.seed, k, keys.len(), portable_only);
 			table::write_events(&events_path, proc_id, crate::BACKEND, &ev, &tab.iter().map(|c| c.portable).collect::<Vec<_>>());
 		},
+	}
+}
+
+/// C04: whatever character a string constructor ACCEPTS ends up in the DER; it must belong to the
+/// alphabet of the tag it is written under (the generators above only produce in-alphabet text).
+#[cfg(all(feature = "crypto", feature = "ossl"))]
+fn c04_accepted_characters(ctx: &Ctx) {
+	use crate::ctx::CaseId;
+	use crate::spec::*;
+	let key = crate::any_key();
+	let mut chars: Vec<char> = (0u32..0x300).filter_map(char::from_u32).collect();
+	chars.extend(['\u{7ff}', '\u{800}', '\u{d7ff}', '\u{e000}', '\u{fffd}', '\u{fffe}', '\u{ffff}', '\u{10000}', '\u{10ffff}']);
+	for kind in ALL_KINDS {
+		for (i, c) in chars.iter().enumerate() {
+			let text = format!("a{}b", c);
+			let v = match crate::guard(|| try_dn_value(kind, &text)) {
+				Ok(Some(v)) => v,
+				_ => continue,
+			};
+			let case = CaseId::new("accepted-characters", 0, (kind.tag() as u64) << 32 | i as u64);
+			if let Some(r) = &ctx.replay {
+				if r.index != case.index {
+					continue;
+				}
+			}
+			let mut p = rcgen::CertificateParams::default();
+			let mut dn = rcgen::DistinguishedName::new();
+			dn.push(rcgen::DnType::OrganizationName, v);
+			p.distinguished_name = dn;
+			ctx.count("eval:c04_accepted_characters");
+			ctx.count("dist:c04_accepted_characters");
+			let label = format!("{:?} accepted U+{:04X}", kind, *c as u32);
+			match crate::guard(|| p.self_signed(&key)) {
+				Ok(Ok(cert)) => {
+					let mut errs = Vec::new();
+					crate::derx::check_canonical(cert.der(), "cert", &mut errs);
+					for e in errs {
+						ctx.violation(&format!("c04:cert:{}", certs::classify(&e)), &case, &label, &e);
+					}
+				},
+				Ok(Err(e)) => ctx.violation("c04:cert-refused", &case, &label, &e.to_string()),
+				Err(pn) => ctx.violation("c04:cert-panic", &case, &label, &pn),
+			}
+		}
 	}
 }
